@@ -14,7 +14,8 @@ package main
 // client draws: nonce (16 bytes), new_nonce (32), DH exponent b (256, big-endian) — delivered to the
 // client through a substituted crypto/rand.Reader; padseed seeds the global math/rand the client's
 // padding comes from, pad16 = the 16 bytes that seed yields (what the Lean model is given).
-// server secrets: RSA key (n, e, d), server_nonce, the primes p < q, g, a, dh_prime, server_time, the
+// server secrets: RSA key (n, e, d; e any odd public exponent - the pool holds keys with 1-, 2-, 3- and 4-byte
+// exponents besides 65537), server_nonce, the primes p < q, g, a, dh_prime, server_time, the
 // source of its answer padding, whether it sends dh_prime / g_a minimally, further fingerprints (before
 // and after its own).
 //
@@ -33,7 +34,11 @@ package main
 // <keyobj>: how the caller holds the public key over the exchanges (hsKeyObj: fresh | slot | setn);
 // <store>: the client's configuration: how its session storage says "nothing stored" (hsStore.Mode: notfound | nil |
 // fail), optionally followed by `+<warnings>`: what the application does with the client's Warnings channel during
-// the exchange (hsWarnMode: nil | buffered | unread | drained; default nil). Every
+// the exchange (hsWarnMode: nil | buffered | unread | drained; default nil), optionally followed by `+<first>`: the
+// request(s) the application issues after the exchange, `/`-separated, one to four (hsRequest: ping | pingdelay | salts |
+// config | bytes<N>; default: one ping) - the conformant server opens every encrypted message it receives with its own
+// envelope code (auth_key_id, msg_key, declared length, 0..15 bytes of padding) and must find its salt and the
+// request's serialisation, written by hand, inside. Every
 // exchange has its own conformant server with its own RSA key. Result: the results of the exchanges, " | " between
 // them. A storage that cannot be read (fail) must make NewMTProto give up: res=err:new, nothing sent or stored.
 //
@@ -62,7 +67,6 @@ package main
 import (
 	"bytes"
 	"crypto/rsa"
-	"encoding/binary"
 	"fmt"
 	"math/big"
 	"math/bits"
@@ -75,15 +79,28 @@ var (
 	c06LastClock []string // … and what each server says about the msg_id of the first encrypted request ("" = accepted)
 )
 
-// c06SplitCfg: `<store>` or `<store>+<warnings>`
+// c06SplitCfg: `<store>`, `<store>+<warnings>` or `<store>+<warnings>+<first>`
 func c06SplitCfg(cfg string) (store, warn string) {
-	if i := strings.IndexByte(cfg, '+'); i >= 0 {
-		return cfg[:i], cfg[i+1:]
+	parts := strings.Split(cfg, "+")
+	if len(parts) >= 2 {
+		return parts[0], parts[1]
 	}
 	return cfg, "nil"
 }
 
+// c06CfgFirst: the requests the application issues after the exchange (default: one ping)
+func c06CfgFirst(cfg string) []string {
+	if parts := strings.Split(cfg, "+"); len(parts) == 3 {
+		return strings.Split(parts[2], "/")
+	}
+	return []string{"ping"}
+}
+
 func c06CfgOk(cfg string) bool {
+	parts := strings.Split(cfg, "+")
+	if len(parts) > 3 || (len(parts) == 3 && !hsRequestsOk(parts[2])) {
+		return false
+	}
 	st, wm := c06SplitCfg(cfg)
 	ok := false
 	for _, m := range hsStoreModes {
@@ -432,6 +449,64 @@ func c06ForceCorner(r *Rand, c *hsCase, field string, z int) bool {
 
 var c06Fields = []string{"nonce", "server_nonce", "new_nonce", "new_nonce_hash1", "rsa", "g_a", "g_b", "g_ab"}
 
+// c06BytesFor: a request with a bytes argument whose serialisation has exactly `body` bytes (body a multiple of 4, >= 8):
+// 4 (id) + TL string - header of 1 byte below 254 bytes, of 4 bytes from there on - zero-padded to a multiple of 4
+func c06BytesFor(r *Rand, body int) string {
+	for {
+		n := body - 8 - r.Intn(4) // 4-byte header
+		if body-4 <= 256 {
+			n = body - 5 - r.Intn(4) // 1-byte header
+		}
+		if n < 0 {
+			continue
+		}
+		if _, b, ok := hsRequest(fmt.Sprintf("bytes%d", n)); ok && len(b) == body {
+			return fmt.Sprintf("bytes%d", n)
+		}
+	}
+}
+
+// c06FirstLists: what the application issues after the exchange, for the operations generated in every run
+func c06FirstLists(r *Rand) []string {
+	by := func(body int) string { return c06BytesFor(r, body) }
+	return []string{
+		// one request, each residue of the body length modulo 16: 4, 8, (12 is the ping of every other operation), 0
+		"config", "salts", "pingdelay", by(20), by(24), by(28), by(32), by(48),
+		// several requests one after another, aligned ones first / last / in the middle; bodies beyond 254 bytes
+		"pingdelay/ping/" + by(64) + "/config",
+		by(16*(2+r.Intn(14))) + "/" + by(16*(17+r.Intn(8))) + "/salts",
+		"ping/" + by(4*(65+r.Intn(60))) + "/" + by(16*(1+r.Intn(16))) + "/pingdelay",
+	}
+}
+
+// c06RandomFirst: one to three requests, half of them with a body that fills whole blocks
+func c06RandomFirst(r *Rand) string {
+	var xs []string
+	for n := 1 + r.Intn(3); n > 0; n-- {
+		switch k := r.Intn(8); {
+		case k < 3:
+			xs = append(xs, c06BytesFor(r, 16*(1+r.Intn(20))))
+		case k == 3:
+			xs = append(xs, "pingdelay")
+		case k == 4:
+			xs = append(xs, c06BytesFor(r, 8+4*r.Intn(100)))
+		default:
+			xs = append(xs, []string{"config", "salts", "ping"}[k-5])
+		}
+	}
+	return strings.Join(xs, "/")
+}
+
+// c06FirstResidues: the body lengths modulo 16 of a request list, for the coverage tags
+func c06FirstResidues(list string) string {
+	var xs []string
+	for _, sp := range strings.Split(list, "/") {
+		_, b, _ := hsRequest(sp)
+		xs = append(xs, strconv.Itoa(len(b)%16))
+	}
+	return strings.Join(xs, "/")
+}
+
 // c06SeqOp: several exchanges as one operation.
 func c06SeqOp(tag, keyobj string, stores []string, cs []*hsCase) string {
 	parts := []string{"c06.seq", tag, keyobj, strconv.Itoa(len(cs))}
@@ -483,7 +558,8 @@ func c06Gen(g *G) {
 	r := g.R
 	// a pool of server keys, used in turn: consecutive exchanges of this process never use the same key twice
 	// running (a conformant server is ANY conformant server, also after the client has talked to another one)
-	pool := hsKeyPool(r, g.N(3, 4))
+	// ... and of keys with other public exponents than 65537 (one per byte length of the exponent; hsKeyPoolExp)
+	pool := hsKeyPoolExp(r, g.N(3, 4), g.Thorough())
 	turn := 0
 	next := func() *rsa.PrivateKey {
 		turn++
@@ -524,6 +600,44 @@ func c06Gen(g *G) {
 		}
 		sm := []string{"notfound", "nil"}[i%2]
 		g.Emit(c06HistOp("hist:"+h, h, sm, c), "honest", "history", "history="+h)
+	}
+	// (a03) servers whose RSA key has another public exponent than 65537: one exchange per such key of the pool, its
+	// fingerprint alone; and one with the fingerprints of the keys that differ from it in the exponent only (the same
+	// modulus with 65537, with the next odd exponent) and in the modulus only listed around it. The conformant server
+	// computes its fingerprint from the TL definition (hsFingerprint) and refuses a req_DH_params naming another one.
+	for i, k := range pool {
+		if k.E == 65537 {
+			continue
+		}
+		nb := len(big.NewInt(int64(k.E)).Bytes())
+		c := hsRandomCase(r, k)
+		c.S.ExtraFps, c.S.LaterFps = nil, nil
+		c06InGroup(r, c, groups[i%len(groups)])
+		g.Emit(c.op(fmt.Sprintf("honest:exponent-%dbyte", nb)), "honest", "exponent", fmt.Sprintf("exponent-bytes=%d", nb))
+		c = hsRandomCase(r, k)
+		other := pool[(i+1)%len(pool)]
+		c.S.ExtraFps = []uint64{hsFingerprint(&rsa.PublicKey{N: k.N, E: 65537})}
+		c.S.LaterFps = []uint64{hsFingerprint(&rsa.PublicKey{N: k.N, E: k.E + 2}), hsFingerprint(&rsa.PublicKey{N: other.N, E: k.E})}
+		g.Emit(c.op(fmt.Sprintf("honest:exponent-%dbyte-near-miss-neighbours", nb)), "honest", "exponent", "fingerprints", fmt.Sprintf("exponent-bytes=%d", nb))
+	}
+	// (a04) the first encrypted request(s): the conformant server enforces the envelope's rules on every message it
+	// reads (0..15 bytes of padding after the declared length), so the request's body length matters: every residue
+	// modulo 16 (bodies are multiples of 4), below and beyond one block, both forms of the TL string header; one
+	// request, and several one after another
+	for i, first := range c06FirstLists(r) {
+		c := hsRandomCase(r, next())
+		c06InGroup(r, c, groups[i%len(groups)])
+		if i%2 == 0 {
+			c06RelClock(r, c)
+		}
+		cfg := []string{"notfound", "nil"}[i%2] + "+" + hsWarnModes[i%len(hsWarnModes)] + "+" + first
+		g.Emit(c06SeqOp("seq:first-"+first, "fresh", []string{cfg}, []*hsCase{c}), "honest", "sequence", "first-request", "first="+c06FirstResidues(first))
+	}
+	{
+		c := hsRandomCase(r, next())
+		g.Emit(c06HistOp("hist:x,reconnect-first", "x,reconnect", "notfound+nil+"+c06BytesFor(r, 32)+"/pingdelay", c), "honest", "history", "first-request")
+		c = hsRandomCase(r, next())
+		g.Emit(c06HistOp("hist:fail2,x-first", "fail2,x", "nil+buffered+pingdelay/"+c06BytesFor(r, 64), c), "honest", "history", "first-request")
 	}
 	// (a0) first of all, sequences in one operation: other keys one after another, the caller's key object kept
 	// or not, and the three ways a session storage says "nothing stored"
@@ -643,7 +757,7 @@ func c06Gen(g *G) {
 		}
 		if i%8 == 3 {
 			h := c06RandomHistory(r)
-			cfg := []string{"notfound", "nil"}[r.Intn(2)] + "+" + hsWarnModes[r.Intn(len(hsWarnModes))]
+			cfg := []string{"notfound", "nil"}[r.Intn(2)] + "+" + hsWarnModes[r.Intn(len(hsWarnModes))] + "+" + c06RandomFirst(r)
 			g.Emit(c06HistOp("hist:random", h, cfg, c), "honest", "history", "history=random")
 			continue
 		}
@@ -651,7 +765,7 @@ func c06Gen(g *G) {
 			sm := hsStoreModes[r.Intn(len(hsStoreModes))]
 			ko := hsKeyObjModes[r.Intn(len(hsKeyObjModes))]
 			wm := hsWarnModes[r.Intn(len(hsWarnModes))]
-			g.Emit(c06SeqOp("seq:random", ko, []string{sm + "+" + wm, "notfound"}, []*hsCase{c, hsRandomCase(r, next())}), "honest", "sequence", "store="+sm, "sequence:keyobj="+ko, "warnings="+wm)
+			g.Emit(c06SeqOp("seq:random", ko, []string{sm + "+" + wm + "+" + c06RandomFirst(r), "notfound"}, []*hsCase{c, hsRandomCase(r, next())}), "honest", "sequence", "store="+sm, "sequence:keyobj="+ko, "warnings="+wm)
 			continue
 		}
 		g.Emit(c.op("honest:random"), "honest", fmt.Sprintf("fingerprints:before=%d,after=%d", len(c.S.ExtraFps), len(c.S.LaterFps)))
@@ -694,16 +808,24 @@ func c06ShowSteps(xs []string) string {
 func c06OneHist(c *hsCase, cfg string, pub *rsa.PublicKey, pre, post []string) (*hsRun, string) {
 	storeMode, warnMode := c06SplitCfg(cfg)
 	hsWarnMode = warnMode
-	run := hsExchangePlan(&hsPlan{StoreMode: storeMode, D: &c.D, Pub: pub, Secrets: &c.S, Probe: true, Pre: pre, Post: post})
+	run := hsExchangePlan(&hsPlan{StoreMode: storeMode, D: &c.D, Pub: pub, Secrets: &c.S, Probe: true, Pre: pre, Post: post, First: c06CfgFirst(cfg)})
 	hsWarnMode = ""
 	c06LastClock = append(c06LastClock, c06ClockVerdict(c, run))
-	if len(run.Srv.Enc) > 0 && run.Srv.AuthKey != nil {
-		salt, body, why := hsOpenClientFrame(run.Srv.AuthKey, run.Srv.Enc[0])
-		if why != "" {
-			run.FirstEnc = "unreadable: " + why
-		} else {
-			run.FirstEnc = fmt.Sprintf("readable salt=%d body=%s", salt, hexD(body))
+	// the server reads EVERY encrypted message that reaches it, by the rules of the description (auth_key_id, msg_key,
+	// declared length, 0..15 bytes of padding)
+	for _, pkt := range run.Srv.Enc {
+		if run.Srv.AuthKey == nil {
+			break
 		}
+		salt, body, why := hsOpenClientFrame(run.Srv.AuthKey, pkt)
+		if why != "" {
+			run.Opened = append(run.Opened, "unreadable: "+why)
+		} else {
+			run.Opened = append(run.Opened, fmt.Sprintf("readable salt=%d body=%s", salt, hexD(body)))
+		}
+	}
+	if len(run.Opened) > 0 {
+		run.FirstEnc = run.Opened[0]
 	}
 	st := "refused"
 	if run.Srv.Done {
@@ -816,15 +938,24 @@ func c06Judge(op []string, out string) string {
 		}
 		return ""
 	}
+	// a server key with another public exponent than 65537 is named in the complaint
+	keyNote := func(c *hsCase, bad []string) string {
+		if len(bad) == 0 || c == nil || c.S.Key.E == 65537 {
+			return strings.Join(bad, "; ")
+		}
+		return fmt.Sprintf("server RSA key %s… with public exponent %d (fingerprint %016x by the TL definition): %s",
+			hexD(c.S.Key.N.Bytes()[:4]), c.S.Key.E, hsFingerprint(&c.S.Key.PublicKey), strings.Join(bad, "; "))
+	}
 	if op[0] == "c06.hs" {
-		return strings.Join(c06JudgeRun(runs[0], "notfound", clock(0)), "; ")
+		c, _ := c06Parse(op)
+		return keyNote(c, c06JudgeRun(runs[0], "notfound", clock(0)))
 	}
 	if op[0] == "c06.hist" {
-		_, pre, post, ok := c06ParseHist(op)
+		c, pre, post, ok := c06ParseHist(op)
 		if !ok {
 			return "no run recorded"
 		}
-		return strings.Join(c06JudgeHist(runs[0], op[2], op[3], pre, post, clock(0)), "; ")
+		return keyNote(c, c06JudgeHist(runs[0], op[2], op[3], pre, post, clock(0)))
 	}
 	keyobj, steps, ok := c06ParseSeq(op)
 	if !ok || len(steps) != len(runs) {
@@ -834,8 +965,8 @@ func c06Judge(op []string, out string) string {
 	for i, st := range steps {
 		for _, b := range c06JudgeRun(runs[i], st.store, clock(i)) {
 			sm, wm := c06SplitCfg(st.store)
-			bad = append(bad, fmt.Sprintf("exchange %d of %d in this process (server key %s…, dh_prime %s…, g %d, key object %s, session storage says %q, Warnings channel %s): %s",
-				i+1, len(steps), hexD(st.c.S.Key.N.Bytes()[:4]), hexD(st.c.S.DhPrime.Bytes()[:4]), st.c.S.G, keyobj, sm, wm, b))
+			bad = append(bad, fmt.Sprintf("exchange %d of %d in this process (server key %s…, public exponent %d, dh_prime %s…, g %d, key object %s, session storage says %q, Warnings channel %s): %s",
+				i+1, len(steps), hexD(st.c.S.Key.N.Bytes()[:4]), st.c.S.Key.E, hexD(st.c.S.DhPrime.Bytes()[:4]), st.c.S.G, keyobj, sm, wm, b))
 		}
 	}
 	return strings.Join(bad, "; ")
@@ -927,18 +1058,32 @@ func c06JudgeRun(run *hsRun, cfg string, clock string) []string {
 					add("stored session (key %s, id %s, salt %d, host %s) is not the server's key / key id / salt / address", showBytes(s.Key), hexD(s.Hash), s.Salt, s.Hostname)
 				}
 			}
-			want := make([]byte, 12)
-			binary.LittleEndian.PutUint32(want, hsIDPing)
-			binary.LittleEndian.PutUint64(want[4:], 0x0123456789abcdef)
-			switch {
-			case run.FirstEnc == "":
-				add("no encrypted request reached the server after the exchange")
-			case !strings.HasPrefix(run.FirstEnc, "readable"):
-				add("the first encrypted request is not readable by the server: %s", run.FirstEnc)
-			case run.FirstEnc != fmt.Sprintf("readable salt=%d body=%s", run.Srv.Salt, hexD(want)):
-				add("the first encrypted request opens to %s, expected salt %d and the ping", run.FirstEnc, run.Srv.Salt)
-			case clock != "":
-				add("%s", clock)
+			// the requests the application issued after the exchange, in order: each must reach the server and open -
+			// by the server's own envelope code, which enforces the description's 0..15 bytes of padding - to the
+			// server's salt and the request's serialisation written by hand (hsRequest)
+			ordinal := []string{"first", "second", "third", "fourth"}
+			for i, spec := range c06CfgFirst(cfg) {
+				_, want, _ := hsRequest(spec)
+				got := ""
+				if i < len(run.Opened) {
+					got = run.Opened[i]
+				}
+				what := fmt.Sprintf("the %s encrypted request (%s: a body of %d bytes, %d mod 16)", ordinal[i%4], spec, len(want), len(want)%16)
+				if i == 0 && spec == "ping" {
+					what = "the first encrypted request"
+				}
+				switch {
+				case got == "" && i == 0:
+					add("no encrypted request reached the server after the exchange")
+				case got == "":
+					add("%s never reached the server", what)
+				case !strings.HasPrefix(got, "readable"):
+					add("%s is not readable by the server: %s", what, got)
+				case got != fmt.Sprintf("readable salt=%d body=%s", run.Srv.Salt, hexD(want)):
+					add("%s opens to %s, expected salt %d and the body %s", what, got, run.Srv.Salt, hexD(want))
+				case i == 0 && clock != "":
+					add("%s", clock)
+				}
 			}
 		}
 	}
